@@ -94,8 +94,8 @@ Proof.
     destruct (get_or_create_canon _ _ _ _ _ C1 Eg1) as [C10 _]. destruct (get_or_create_canon _ _ _ _ _ C2 Eg2) as [C20 _].
     destruct (walk v2 p f1 _ None c) as [[xa na]|] eqn:Ra; [|discriminate]. destruct (walk v2 p f2 _ None c) as [[xb nb]|] eqn:Rb; [|discriminate].
     injection Fa as _ <-. injection Fb as _ <-.
-    destruct (walk_canonical v2 p Hok _ _ _ _ _ _ (update_canon _ _ _ _ C10) Ra) as [_ Ka].
-    destruct (walk_canonical v2 p Hok _ _ _ _ _ _ (update_canon _ _ _ _ C20) Rb) as [_ Kb].
+    destruct (walk_child_is v2 p Hok _ _ _ _ _ _ (update_canon _ _ _ _ C10) Ra) as [_ Ka].
+    destruct (walk_child_is v2 p Hok _ _ _ _ _ _ (update_canon _ _ _ _ C20) Rb) as [_ Kb].
     assert (na = nb) by (eapply child_is_unique; eauto). subst nb.
     split; [congruence|]. rewrite E2 in Lb. rewrite E1 in La. rewrite E1, E2. eexists. split; [exact La|exact Lb].
   - (* slice *)
@@ -106,8 +106,8 @@ Proof.
     destruct (get_or_create_canon _ _ _ _ _ C1 Eg1) as [C10 _]. destruct (get_or_create_canon _ _ _ _ _ C2 Eg2) as [C20 _].
     destruct (walk v2 p f1 _ None c) as [[xa na]|] eqn:Ra; [|discriminate]. destruct (walk v2 p f2 _ None c) as [[xb nb]|] eqn:Rb; [|discriminate].
     injection Fa as _ <-. injection Fb as _ <-.
-    destruct (walk_canonical v2 p Hok _ _ _ _ _ _ (update_canon _ _ _ _ C10) Ra) as [_ Ka].
-    destruct (walk_canonical v2 p Hok _ _ _ _ _ _ (update_canon _ _ _ _ C20) Rb) as [_ Kb].
+    destruct (walk_child_is v2 p Hok _ _ _ _ _ _ (update_canon _ _ _ _ C10) Ra) as [_ Ka].
+    destruct (walk_child_is v2 p Hok _ _ _ _ _ _ (update_canon _ _ _ _ C20) Rb) as [_ Kb].
     assert (na = nb) by (eapply child_is_unique; eauto). subst nb.
     split; [congruence|]. rewrite E2 in Lb. rewrite E1 in La. rewrite E1, E2. eexists. split; [exact La|exact Lb].
   - (* array *)
@@ -118,8 +118,8 @@ Proof.
     destruct (get_or_create_canon _ _ _ _ _ C1 Eg1) as [C10 _]. destruct (get_or_create_canon _ _ _ _ _ C2 Eg2) as [C20 _].
     destruct (walk v2 p f1 _ None c) as [[xa na]|] eqn:Ra; [|discriminate]. destruct (walk v2 p f2 _ None c) as [[xb nb]|] eqn:Rb; [|discriminate].
     injection Fa as _ <-. injection Fb as _ <-.
-    destruct (walk_canonical v2 p Hok _ _ _ _ _ _ (update_canon _ _ _ _ C10) Ra) as [_ Ka].
-    destruct (walk_canonical v2 p Hok _ _ _ _ _ _ (update_canon _ _ _ _ C20) Rb) as [_ Kb].
+    destruct (walk_child_is v2 p Hok _ _ _ _ _ _ (update_canon _ _ _ _ C10) Ra) as [_ Ka].
+    destruct (walk_child_is v2 p Hok _ _ _ _ _ _ (update_canon _ _ _ _ C20) Rb) as [_ Kb].
     assert (na = nb) by (eapply child_is_unique; eauto). subst nb.
     split; [congruence|]. rewrite E2 in Lb. rewrite E1 in La. rewrite E1, E2. eexists. split; [exact La|exact Lb].
   - (* map *)
@@ -139,8 +139,8 @@ Proof.
     destruct (walk v2 p f1 _ None c) as [[xa nea]|] eqn:Ra; [|discriminate]. destruct (walk v2 p f1 xa None k) as [[ya nka]|] eqn:Sa; [|discriminate].
     destruct (walk v2 p f2 _ None c) as [[xb neb]|] eqn:Rb; [|discriminate]. destruct (walk v2 p f2 xb None k) as [[yb nkb]|] eqn:Sb; [|discriminate].
     injection Fa as _ <-. injection Fb as _ <-.
-    destruct (walk_canonical v2 p Hok _ _ _ _ _ _ (update_canon _ _ _ _ C10) Ra) as [Cxa Ka]. destruct (walk_canonical v2 p Hok _ _ _ _ _ _ Cxa Sa) as [_ Ka2].
-    destruct (walk_canonical v2 p Hok _ _ _ _ _ _ (update_canon _ _ _ _ C20) Rb) as [Cxb Kb]. destruct (walk_canonical v2 p Hok _ _ _ _ _ _ Cxb Sb) as [_ Kb2].
+    destruct (walk_child_is v2 p Hok _ _ _ _ _ _ (update_canon _ _ _ _ C10) Ra) as [Cxa Ka]. destruct (walk_child_is v2 p Hok _ _ _ _ _ _ Cxa Sa) as [_ Ka2].
+    destruct (walk_child_is v2 p Hok _ _ _ _ _ _ (update_canon _ _ _ _ C20) Rb) as [Cxb Kb]. destruct (walk_child_is v2 p Hok _ _ _ _ _ _ Cxb Sb) as [_ Kb2].
     assert (nea = neb) by exact (child_is_unique v2 p None c _ _ Hkc Ka Kb). assert (nka = nkb) by exact (child_is_unique v2 p None k _ _ Hkk Ka2 Kb2). subst neb nkb.
     split; [congruence|]. rewrite E2 in Lb. rewrite E1 in La. rewrite E1, E2. eexists. split; [exact La|exact Lb].
   - (* channel *)
@@ -151,8 +151,8 @@ Proof.
     destruct (get_or_create_canon _ _ _ _ _ C1 Eg1) as [C10 _]. destruct (get_or_create_canon _ _ _ _ _ C2 Eg2) as [C20 _].
     destruct (walk v2 p f1 _ None c) as [[xa na]|] eqn:Ra; [|discriminate]. destruct (walk v2 p f2 _ None c) as [[xb nb]|] eqn:Rb; [|discriminate].
     injection Fa as _ <-. injection Fb as _ <-.
-    destruct (walk_canonical v2 p Hok _ _ _ _ _ _ (update_canon _ _ _ _ C10) Ra) as [_ Ka].
-    destruct (walk_canonical v2 p Hok _ _ _ _ _ _ (update_canon _ _ _ _ C20) Rb) as [_ Kb].
+    destruct (walk_child_is v2 p Hok _ _ _ _ _ _ (update_canon _ _ _ _ C10) Ra) as [_ Ka].
+    destruct (walk_child_is v2 p Hok _ _ _ _ _ _ (update_canon _ _ _ _ C20) Rb) as [_ Kb].
     assert (na = nb) by (eapply child_is_unique; eauto). subst nb.
     split; [congruence|]. rewrite E2 in Lb. rewrite E1 in La. rewrite E1, E2. eexists. split; [exact La|exact Lb].
   - (* struct *)
@@ -230,7 +230,7 @@ Proof.
     destruct recv as [r|].
     + destruct (walk v2 p f1 ya None r) as [[za na]|] eqn:Ta; [|discriminate]. destruct (walk v2 p f2 yb None r) as [[zb nb]|] eqn:Tb; [|discriminate].
       injection Fa as _ <-. injection Fb as _ <-.
-      destruct (walk_canonical v2 p Hok _ _ _ _ _ _ Cya Ta) as [_ Ka]. destruct (walk_canonical v2 p Hok _ _ _ _ _ _ Cyb Tb) as [_ Kb].
+      destruct (walk_child_is v2 p Hok _ _ _ _ _ _ Cya Ta) as [_ Ka]. destruct (walk_child_is v2 p Hok _ _ _ _ _ _ Cyb Tb) as [_ Kb].
       assert (na = nb) by (eapply child_is_unique; [exact (Hrc r eq_refl)|exact Ka|exact Kb]). subst nb.
       split; [congruence|]. rewrite E2 in Lb. rewrite E1 in La. rewrite E1, E2. eexists. split; [exact La|exact Lb].
     + injection Fa as _ <-. injection Fb as _ <-.
